@@ -28,6 +28,10 @@ EXTRA = [  # descriptions chosen for their solver / CSE load and for duplicate-s
     ("set_at", "b [a], b i j, j -> b [a]", [(2, 3), (2, 2, 3), (3,)], {}),
     ("add_at", "b [a], b p, p -> b [a]", [(2, 4), (2, 3), (3,)], {}),
     ("get_at", "b [h w] c, b i [2] -> b i c", [(2, 3, 4, 2), (2, 5, 2)], {}),
+    # short forms: the implicit output is chosen among candidates (must not depend on the iteration order of a set)
+    ("add", "a b, b a", [(2, 3), (3, 2)], {}), ("multiply", "a b, b a", [(2, 3), (3, 2)], {}), ("add", "a 1, 1 a", [(2, 1), (1, 2)], {}), ("add", "a b, a b", [(2, 3), (2, 3)], {}),
+    ("add", "a b, b", [(2, 3), (3,)], {}), ("add", "b, a b", [(3,), (2, 3)], {}), ("where", "a b, b a, a b", [(2, 3), (3, 2), (2, 3)], {}), ("add", "a b c, c b a, b a c", [(2, 2, 2)] * 3, {}),
+    ("sum", "a [b] c", [(2, 3, 2)], {}), ("flip", "a [b c]", [(2, 3, 2)], {}), ("argmax", "a [b c]", [(2, 3, 2)], {}), ("dot", "a b, b c -> a c", [(2, 3), (3, 2)], {}),
 ]
 
 
